@@ -55,7 +55,7 @@ pub fn toy(t: &Toy, x: f64) -> f64 {
         0.0
       }
     }
-    _ => {
+    6 => {
       // tilted double well: |x - a| * |x - b| is not exact in binary64 in general; use max instead
       let u = (x - t.a).abs();
       let v = 2.0 * (x - t.b).abs();
@@ -63,6 +63,14 @@ pub fn toy(t: &Toy, x: f64) -> f64 {
         u
       } else {
         v
+      }
+    }
+    _ => {
+      // undefined (NaN) on the open interval (a, a + 2), |x - b| elsewhere
+      if x > t.a && x < t.a + 2.0 {
+        f64::NAN
+      } else {
+        (x - t.b).abs()
       }
     }
   }
@@ -92,7 +100,7 @@ fn table_json(t: &[(f64, f64)]) -> Value {
 
 fn run_nm(rng: &mut Rng, n: usize) {
   for i in 0..n {
-    let kind = (i % 7) as u32;
+    let kind = (i % 8) as u32;
     let t = Toy { kind, a: dy(rng, -256, 256, 16.0), b: dy(rng, -256, 256, 16.0), h: dy(rng, 0, 64, 16.0) };
     let g0 = dy(rng, -512, 512, 16.0);
     let g1 = match rng.below(4) {
@@ -630,12 +638,29 @@ fn theta_setup(rng: &mut Rng, crystal_id: &str, pm: PMType, lp: f64, ls: f64, c_
   Setup { cs, signal, pump, pp: PeriodicPoling::Off, input }
 }
 
+/// the configuration route "theta_deg": "auto" on the same numbers
+fn observe_theta_config(i: usize, s: &Setup) {
+  let cfg = config_json(s, true, false);
+  let r = guarded(std::panic::AssertUnwindSafe(|| SPDC::from_json(&cfg)));
+  let o = match r {
+    Ok(Ok(spdc)) => {
+      let z = guarded(std::panic::AssertUnwindSafe(|| dkz(&spdc.signal, &spdc.pump, &spdc.crystal_setup, &PeriodicPoling::Off)));
+      json!({"class": "ok", "theta": fx(rad(spdc.crystal_setup.theta)), "length": fx(met(spdc.crystal_setup.length)),
+             "dkz": match z { Ok(Ok((z, _))) => fx(z), _ => Value::Null }})
+    }
+    Ok(Err(e)) => json!({"class": "err", "error": e.to_string()}),
+    Err(m) => json!({"class": "panic", "message": m}),
+  };
+  emit(json!({"kind": "theta_config", "i": i, "input": s.input, "result": o}));
+}
+
 fn run_theta(rng: &mut Rng, n: usize) {
   let metas = CrystalType::get_all_meta();
   let pms = [PMType::Type1_e_oo, PMType::Type2_e_eo, PMType::Type2_e_oe];
   // the configuration named in the design notes first: BiBO_1, e -> eo, 775 -> 1550 nm, azimuth 0
   let s = theta_setup(rng, "BiBO_1", PMType::Type2_e_eo, 775e-9, 1550e-9, 0.0, 0.0, 2e-3, 20.0);
   observe_theta(0, "design-note", &s);
+  observe_theta_config(0, &s);
   for i in 1..n {
     let meta = &metas[i % metas.len()];
     let pm = pms[(i / metas.len()) % 3];
@@ -653,19 +678,8 @@ fn run_theta(rng: &mut Rng, n: usize) {
     let t_c = if rng.coin() { 20.0 } else { rng.range(0.0, 100.0) };
     let s = theta_setup(rng, meta.id, pm, lp, ls, c_phi, theta_s, len, t_c);
     observe_theta(i, "box", &s);
-    if i % 6 == 0 {
-      let cfg = config_json(&s, true, false);
-      let r = guarded(std::panic::AssertUnwindSafe(|| SPDC::from_json(&cfg)));
-      let o = match r {
-        Ok(Ok(spdc)) => {
-          let z = guarded(std::panic::AssertUnwindSafe(|| dkz(&spdc.signal, &spdc.pump, &spdc.crystal_setup, &PeriodicPoling::Off)));
-          json!({"class": "ok", "theta": fx(rad(spdc.crystal_setup.theta)), "length": fx(met(spdc.crystal_setup.length)),
-                 "dkz": match z { Ok(Ok((z, _))) => fx(z), _ => Value::Null }})
-        }
-        Ok(Err(e)) => json!({"class": "err", "error": e.to_string()}),
-        Err(m) => json!({"class": "panic", "message": m}),
-      };
-      emit(json!({"kind": "theta_config", "i": i, "input": s.input, "result": o}));
+    if i % 6 == 0 || meta.id == "BiBO_1" {
+      observe_theta_config(i, &s);
     }
   }
 }
